@@ -98,7 +98,22 @@ def _real_worker(args):
     try:
         return prop.real(case)
     except Exception as e:  # harness bug or unexpected exception class
-        return {'__harness_exception__': f'{type(e).__name__}: {e}',
+        # an exception that escapes from the LIBRARY (innermost frame inside the regions package) during an operation
+        # the harness expected to succeed is a behaviour of the code under test on this input, not a harness fault
+        tb = e.__traceback__
+        files = []
+        while tb is not None:
+            files.append(os.path.realpath(tb.tb_frame.f_code.co_filename))
+            tb = tb.tb_next
+        src = os.path.realpath(os.environ.get('REGIONS_SRC', '/repo'))
+        lib = os.path.join(src, 'regions') + os.sep
+        hdir = os.path.realpath(os.path.dirname(__file__)) + os.sep
+        k_h = max([i for i, f in enumerate(files) if f.startswith(hdir)], default=-1)
+        below = [f for f in files[k_h + 1:] if f.startswith(lib)]
+        in_lib = bool(below)          # the harness called into the library and the exception came out of that call
+        last = below[-1] if below else (files[-1] if files else None)
+        key = '__library_exception__' if in_lib else '__harness_exception__'
+        return {key: f'{type(e).__name__}: {e}', '_where': last,
                 'tb': traceback.format_exc()[-1500:]}
 
 
@@ -130,6 +145,10 @@ def run_cases(prop, cases, have_model):
     for c, r, m in zip(cases, reals, models):
         if isinstance(r, dict) and '__harness_exception__' in r:
             out.append((c, r, m, True, [{'kind': 'harness_exception', 'detail': r['__harness_exception__'], 'tb': r.get('tb')}]))
+            continue
+        if isinstance(r, dict) and '__library_exception__' in r:
+            out.append((c, r, m, True, [{'kind': 'operation_raised', 'detail': r['__library_exception__'] + ' (raised inside ' + str(r.get('_where')) + ')',
+                                         'tb': r.get('tb')}]))
             continue
         dis = have_model and not prop.equal(c, r, m)
         try:
